@@ -126,7 +126,12 @@ def correspondence(ctx):
                  "verified honestly and after tampering with that file), in-place-rewrite-same-size-same-mtime (the command rewrites a "
                  "material in place with the same size and restores its mtime; the product digest must be that of the bytes on disk). "
                  "verify/no-layout-keys: --layout-keys \"\", \",\", \" \" and -k \"\" with the signed, unsigned and altered layout: non-zero, "
-                 "no inspection. sign-verify/duplicate-keyid: the layout signed with `sign`, a signed field edited, signed "
+                 "no inspection. record-stop-ignores-stale-unfinished-link (every fifth chain): record start abandoned, material revised, record start "
+                 "again and record stop, with the stale unfinished link in the cwd / in the metadata directory / of another key and step: the "
+                 "finished link has the materials of the second start (harness digests) and a layout matching the deliverables against it "
+                 "verifies. verify-in-unwritable-directory (every second chain): verify where <inspection>.link cannot be written - a "
+                 "directory of that name exists, or the cwd has mode 0555 and the binary runs as uid 65534 - honest and with a tampered "
+                 "product; the verdict must be the library's in a writable copy of the same files. sign-verify/duplicate-keyid: the layout signed with `sign`, a signed field edited, signed "
                  "again with the same key(s) (two entries per key id, stale first), the entries reversed by hand, legacy and DSSE: `sign "
                  "--verify` and `verify` must answer what the library answers on the same file. Directory shapes: the working directory of run/record, the metadata directory (-d, relative, absolute, "
                  "trailing slash), verify's working directory, link directory and layout file name are drawn from names with %, %s, %d, %2F, [1], "
